@@ -71,6 +71,25 @@ pub fn stream_paths(
         items.push((k.to_vec(), 0, String::new()));
     }
     out.push(("Set::search", false, items));
+    // the with-state builders answer the same query (states dropped here)
+    let mut items = vec![];
+    let mut st = bounds!(m.search_with_state(aut), setters).into_stream();
+    while let Some((k, v, _)) = st.next() {
+        items.push((k.to_vec(), v, String::new()));
+    }
+    out.push(("Map::search_with_state (keys, values)", true, items));
+    let mut items = vec![];
+    let mut st = bounds!(s.search_with_state(aut), setters).into_stream();
+    while let Some((k, _)) = st.next() {
+        items.push((k.to_vec(), 0, String::new()));
+    }
+    out.push(("Set::search_with_state (keys)", false, items));
+    let mut items = vec![];
+    let mut st = bounds!(f.search_with_state(aut), setters).into_stream();
+    while let Some((k, v, _)) = st.next() {
+        items.push((k.to_vec(), v.value(), String::new()));
+    }
+    out.push(("raw::Fst::search_with_state (keys, values)", true, items));
     // collectors
     let v = bounds!(m.search(aut), setters).into_stream().into_byte_vec();
     out.push(("Map search into_byte_vec", true, v.into_iter().map(|(k, v)| (k, v, String::new())).collect()));
